@@ -130,7 +130,14 @@ func (vs *ValidatorStore) ExecuteAllegationTracker(ctx *ValidatorContext, active
 	addrToDelete := make([]string, 0)
 	//processedValidators := make(map[string]bool)
 	ctx.EvidenceStore.CleanTracker()
+	// decide the requests in a fixed order: the verdicts write new records, and the order of
+	// writes is part of the state root, so it must not depend on map iteration order
+	requestIDs := make([]string, 0, len(at.Requests))
 	for requestID := range at.Requests {
+		requestIDs = append(requestIDs, requestID)
+	}
+	sort.Strings(requestIDs)
+	for _, requestID := range requestIDs {
 		ar, err := ctx.EvidenceStore.GetAllegationRequest(requestID)
 		decisionMade := false
 		if err != nil {
